@@ -176,7 +176,11 @@ def make_boundary(fem, fc, spec, name):
         # documented re-use: the boundary is created with another selection of the same kind, the final one is handed to
         # apply_mask() afterwards (dof, points and mask must follow)
         final = kw["mask"]
-        kw["mask"] = np.random.default_rng(spec["mask"]["seed"] + 1).uniform(size=np.shape(final)) < 0.5
+        shape = np.shape(final)
+        if spec["mask"]["seed"] % 4 == 2 and spec["skip"] is None:
+            # ... created with a selection of the OTHER kind (dof-based, then point-based, or the reverse)
+            shape = (npts, dim) if np.ndim(final) == 1 else (npts,)
+        kw["mask"] = np.random.default_rng(spec["mask"]["seed"] + 1).uniform(size=shape) < 0.5
         b = fem.Boundary(f, name=name, value=value, **kw)
         b.apply_mask(final)
     else:
